@@ -266,7 +266,9 @@ def _guarded_ratio(v):
 
 
 # reducers that modify the vector they are handed, and one whose result depends on the caller's floating-point error policy
-FUNCS.update({'mut:trimmed_range': _trimmed_range, 'mut:demeaned_peak': _demeaned_peak, 'fp:guarded_ratio': _guarded_ratio})
+FUNCS.update({'int:most_frequent': lambda v: float(np.bincount(v - v.min()).argmax() + v.min()), 'int:flags': lambda v: float(np.bitwise_or.reduce(v)),
+              'int:wrapped_step': lambda v: float(v[-1] - v[0]),
+              'mut:trimmed_range': _trimmed_range, 'mut:demeaned_peak': _demeaned_peak, 'fp:guarded_ratio': _guarded_ratio})
 
 KINDS = {'stat': check_stat, 'align': check_align, 'bin': check_bin, 'align_labels': check_align_labels}
 
@@ -286,6 +288,9 @@ def gen_case(rng):
                         labels[i] = -1
         vals = rng.standard_normal(len(labels)) if rng.random() < .7 else rng.integers(-5, 6, len(labels)).astype(float)
         fname = gens.pick(rng, sorted(FUNCS))
+        if fname.startswith('int:'):
+            # state codes / bit flags / raw counts: integer-typed values handed to a reducer that relies on integer arithmetic
+            vals = rng.integers(0, 9, len(labels)).astype(gens.pick(rng, [np.int64, np.int16, np.uint8]))
         if rng.random() < .08 and labels.max() >= 2:
             # "any labelling": a label below the maximum that no sample carries (a cycle dropped without renumbering);
             # only with reducing functions that are defined on an empty vector
